@@ -20,6 +20,7 @@ import (
 	"crypto/x509"
 	"fmt"
 	"io/ioutil"
+	"sync"
 	"time"
 
 	"github.com/caddyserver/certmagic"
@@ -608,6 +609,9 @@ var defaultCurves = []tls.CurveID{
 }
 
 var clusterPluginSetup int32 // access atomically
+
+// clusterPluginMu serialises the one-time construction of the storage plugin.
+var clusterPluginMu sync.Mutex
 
 // CertCacheInstStorageKey is the name of the key for
 // accessing the certificate storage on the *casket.Instance.
